@@ -27,6 +27,9 @@ var After func(op string, b []byte, fd int)
 
 var deferred [][]byte
 
+// RealUnmap is raised by an oracle while it works on a private directory image.
+var RealUnmap bool
+
 // Mapped counts live mappings (for leak probes).
 var Mapped int
 
@@ -79,6 +82,15 @@ func Munmap(b []byte) error {
 	}
 	if len(b) == 0 {
 		return unix.EINVAL
+	}
+	if rt.S.Cur() == nil || RealUnmap {
+		// scheduler context (an oracle re-opening a directory image): nobody else can hold
+		// this mapping, release it for real
+		Mapped--
+		if After != nil {
+			After("munmap", b, -1)
+		}
+		return unix.Munmap(b)
 	}
 	if err := unix.Mprotect(b, unix.PROT_NONE); err != nil {
 		return err
